@@ -318,6 +318,7 @@ impl<T: Send + Sync + 'static> Puppet<T> {
             let mut g = self.world.lock();
             let owner = g.cur_tag;
             g.pups[self.id as usize].push(InstState { owner, ..Default::default() });
+            g.log.push(Ev::Owner { pup: self.id, inst: inst as u16, owner });
         }
         let h = self.world.enter(Site::PupRecv { pup: self.id, inst: inst as u16, msg: M::Handshake });
         if !self.spec.late {
